@@ -42,7 +42,7 @@ def run(ctx, desc):
         for k in range(desc["count"]):
             dcf = rng.random() < 0.5
             node_src = rng.choice(["explicit", "file" if dcf else "explicit", "absent"])
-            node_id = rng.randint(1, 127)
+            node_id = rng.choice([rng.randint(1, 127), rng.randint(1, 127), 127, 1])      # the ends of the legal range too
             model = gen.eds_model(rng, node_id=node_id if node_src != "absent" else None, dcf=dcf,
                                   n_objects=rng.randint(6, 22), relative=node_src != "absent" or True)
             if node_src == "absent":
